@@ -9,45 +9,14 @@ package main
 
 import (
 	"bufio"
-	"crypto"
-	"crypto/sha512"
-	"encoding/hex"
 	"encoding/json"
 	"flag"
 	"fmt"
-	"math/big"
-	"math/rand"
 	"os"
 
-	"github.com/oasisprotocol/ed25519"
-	"github.com/oasisprotocol/ed25519/extra/x25519"
-	"github.com/oasisprotocol/ed25519/verifh/gen"
+	"github.com/oasisprotocol/ed25519/verifh/calls"
 	"github.com/oasisprotocol/ed25519/verifh/ref"
 )
-
-type Call struct {
-	Op    string   `json:"op"`
-	Class string   `json:"class"`
-	A     string   `json:"a,omitempty"` // seed / key / scalar
-	B     string   `json:"b,omitempty"` // message / point
-	C     string   `json:"c,omitempty"` // signature
-	Hash  int      `json:"hash,omitempty"`
-	Ctx   string   `json:"ctx,omitempty"`
-	Zip   bool     `json:"zip,omitempty"`
-	Keys  []string `json:"keys,omitempty"`
-	Msgs  []string `json:"msgs,omitempty"`
-	Sigs  []string `json:"sigs,omitempty"`
-	ESeed int64    `json:"eseed,omitempty"`
-}
-
-func hx(b []byte) string { return hex.EncodeToString(b) }
-func uh(s string) []byte {
-	b, err := hex.DecodeString(s)
-	if err != nil {
-		panic(err)
-	}
-	return b
-}
 
 func main() {
 	var doGen bool
@@ -73,7 +42,11 @@ func main() {
 			fmt.Println("INCONCLUSIVE oracle self-validation failed", bad)
 			os.Exit(3)
 		}
-		generate(w, seed, tier)
+		rounds := 12
+		if tier == "thorough" {
+			rounds = 450
+		}
+		fmt.Println("generated", calls.Generate(w, seed, rounds), "calls")
 		return
 	}
 	in, err := os.Open(execFile)
@@ -89,239 +62,12 @@ func main() {
 			idx++
 			continue
 		}
-		var c Call
+		var c calls.Call
 		if err := json.Unmarshal(sc.Bytes(), &c); err != nil {
 			fmt.Println(err)
 			os.Exit(3)
 		}
-		fmt.Fprintf(w, "%d %s %s\n", idx, c.Op, execute(&c))
+		fmt.Fprintf(w, "%d %s %s\n", idx, c.Op, calls.Execute(&c))
 		idx++
 	}
-}
-
-func opts(c *Call) *ed25519.Options {
-	return &ed25519.Options{Hash: crypto.Hash(c.Hash), Context: string(uh(c.Ctx)), ZIP215Verify: c.Zip}
-}
-
-func execute(c *Call) (res string) {
-	defer func() {
-		if r := recover(); r != nil {
-			res = "panic"
-		}
-	}()
-	switch c.Op {
-	case "keygen":
-		k := ed25519.NewKeyFromSeed(uh(c.A))
-		return hx(k)
-	case "sign":
-		k := ed25519.NewKeyFromSeed(uh(c.A))
-		if c.Hash == 0 && c.Ctx == "" {
-			return hx(ed25519.Sign(k, uh(c.B)))
-		}
-		s, err := k.Sign(nil, uh(c.B), opts(c))
-		if err != nil {
-			return "err"
-		}
-		return hx(s)
-	case "verify":
-		return fmt.Sprint(ed25519.VerifyWithOptions(uh(c.A), uh(c.B), uh(c.C), opts(c)))
-	case "batch":
-		keys := make([]ed25519.PublicKey, len(c.Keys))
-		msgs := make([][]byte, len(c.Msgs))
-		sigs := make([][]byte, len(c.Sigs))
-		for i := range keys {
-			keys[i] = uh(c.Keys[i])
-		}
-		for i := range msgs {
-			msgs[i] = uh(c.Msgs[i])
-		}
-		for i := range sigs {
-			sigs[i] = uh(c.Sigs[i])
-		}
-		ok, valid, err := ed25519.VerifyBatch(rand.New(rand.NewSource(c.ESeed)), keys, msgs, sigs, opts(c))
-		s := fmt.Sprintf("%v/%v/", ok, err != nil)
-		for _, v := range valid {
-			if v {
-				s += "1"
-			} else {
-				s += "0"
-			}
-		}
-		return s
-	case "x25519":
-		o, err := x25519.X25519(uh(c.A), uh(c.B))
-		return fmt.Sprintf("%s/%v", hx(o), err != nil)
-	case "x25519base":
-		o, err := x25519.X25519(uh(c.A), x25519.Basepoint)
-		var d [32]byte
-		var in [32]byte
-		copy(in[:], uh(c.A))
-		x25519.ScalarBaseMult(&d, &in)
-		return fmt.Sprintf("%s/%v/%s", hx(o), err != nil, hx(d[:]))
-	case "convpriv":
-		k := ed25519.NewKeyFromSeed(uh(c.A))
-		return hx(x25519.EdPrivateKeyToX25519(k))
-	case "convpub":
-		o, ok := x25519.EdPublicKeyToX25519(uh(c.A))
-		return fmt.Sprintf("%s/%v", hx(o), ok)
-	}
-	return "?"
-}
-
-func vfields(c *Call, v ref.Variant) {
-	if v.Ph {
-		c.Hash = int(crypto.SHA512)
-	}
-	if !v.Pure {
-		c.Ctx = hx(v.Ctx)
-	}
-}
-
-func generate(w *bufio.Writer, seed int64, tier string) {
-	rng := rand.New(rand.NewSource(seed*7919 + 8))
-	n := 0
-	emit := func(c *Call) {
-		b, _ := json.Marshal(c)
-		w.Write(b)
-		w.WriteByte('\n')
-		n++
-	}
-	triple := func(t gen.Triple, class string) {
-		for _, zip := range []bool{false, true} {
-			c := &Call{Op: "verify", Class: class, A: hx(t.Pub), B: hx(t.Msg), C: hx(t.Sig), Zip: zip}
-			vfields(c, t.V)
-			emit(c)
-		}
-	}
-	so := ref.SmallOrderEncodings()
-	rounds := 12
-	if tier == "thorough" {
-		rounds = 450
-	}
-	for r := 0; r < rounds; r++ {
-		// key generation and the three signing variants (incl. long messages and all context classes)
-		for i := 0; i < 12; i++ {
-			v := gen.Variant(rng, i%3)
-			sd := gen.Seed(rng)
-			emit(&Call{Op: "keygen", Class: "keygen", A: hx(sd)})
-			c := &Call{Op: "sign", Class: "sign/" + gen.VariantName(v), A: hx(sd), B: hx(gen.MsgFor(rng, v))}
-			vfields(c, v)
-			emit(c)
-			emit(&Call{Op: "convpriv", Class: "convpriv", A: hx(sd)})
-		}
-		// bulk signing with random seeds/messages: needs no model work to
-		// generate, the configurations check each other (rare carry/borrow
-		// patterns in the scalar reduction are hit by volume)
-		for i := 0; i < 150; i++ {
-			v := ref.Variant{Pure: true}
-			if i%5 == 0 {
-				v = gen.Variant(rng, -1)
-			}
-			c := &Call{Op: "sign", Class: "sign-bulk/" + gen.VariantName(v), A: hx(gen.RandBytes(rng, 32)), B: hx(gen.MsgFor(rng, v))}
-			vfields(c, v)
-			emit(c)
-			if i%3 == 0 {
-				emit(&Call{Op: "x25519base", Class: "x25519base-bulk", A: hx(gen.RandBytes(rng, 32))})
-			}
-		}
-		// verification verdicts in both modes
-		for i := 0; i < 8; i++ {
-			triple(gen.Torsion(rng, rng.Intn(8), rng.Intn(8), rng.Intn(5) == 0, rng.Intn(5) == 0, -1), "torsion")
-		}
-		sb := gen.SBound(rng)
-		for i := 0; i < 10; i++ {
-			triple(gen.SmallKey(rng, so[rng.Intn(14)], sb[rng.Intn(len(sb))], rng.Intn(8), -1), "smallkey-Sbound")
-		}
-		// top slice [2^252, L) explicitly
-		delta := new(big.Int).Sub(ref.L, gen.P2_252)
-		for i := 0; i < 4; i++ {
-			triple(gen.SmallKey(rng, so[rng.Intn(14)], new(big.Int).Add(gen.P2_252, gen.RandBelow(rng, delta)), rng.Intn(8), -1), "smallkey-topslice")
-		}
-		for i := 0; i < 3; i++ {
-			triple(gen.NoncanonR(rng, so[rng.Intn(14)], -1), "noncanonR")
-			triple(gen.Honest(rng, -1), "honest")
-			h := gen.Honest(rng, -1)
-			ps := gen.AllPerturbs(h)
-			triple(gen.ApplyPerturb(h, ps[rng.Intn(len(ps))]), "perturbed")
-		}
-		for i := 0; i < 6; i++ {
-			g, _ := gen.Garbage32(rng)
-			h := gen.Honest(rng, -1)
-			if i%2 == 0 {
-				h.Pub = g
-			} else {
-				copy(h.Sig[:32], g)
-			}
-			triple(h, "garbage")
-			emit(&Call{Op: "convpub", Class: "convpub", A: hx(g)})
-		}
-		ks, _ := gen.SpecialKeys()
-		for i := 0; i < 6; i++ {
-			emit(&Call{Op: "convpub", Class: "convpub-special", A: hx(ks[rng.Intn(len(ks))])})
-		}
-		// X25519 on both paths
-		scs := gen.XScalars(rng)
-		pts, _ := gen.XPoints(rng)
-		for i := 0; i < 14; i++ {
-			sc := scs[rng.Intn(len(scs))]
-			emit(&Call{Op: "x25519base", Class: "x25519base", A: hx(sc)})
-			emit(&Call{Op: "x25519", Class: "x25519", A: hx(sc), B: hx(pts[rng.Intn(len(pts))])})
-		}
-		// batches with seeded entropy
-		for i := 0; i < 3; i++ {
-			v := gen.Variant(rng, -1)
-			sizes := []int{4, 5, 7, 8, 33, 64, 65, 68, 70, 130}
-			bn := sizes[rng.Intn(len(sizes))]
-			if i > 0 {
-				bn = sizes[rng.Intn(4)]
-			}
-			c := &Call{Op: "batch", Class: fmt.Sprintf("batch/%d", bn), Zip: rng.Intn(2) == 0, ESeed: rng.Int63()}
-			vfields(c, v)
-			var pool []gen.Triple
-			for k := 0; k < 3; k++ {
-				sd := gen.Seed(rng)
-				msg := gen.MsgFor(rng, v)
-				pub, sig := ref.Sign(sd, msg, v)
-				pool = append(pool, gen.Triple{Pub: pub, Msg: msg, Sig: sig})
-			}
-			// one mixed-order member and one ZIP-215-only member
-			{
-				a, rr := gen.RandScalar(rng), gen.RandScalar(rng)
-				A := gen.NewKeyPoint(rng, a, rng.Intn(8), -1)
-				R := gen.NewKeyPoint(rng, rr, rng.Intn(8), -1)
-				msg := gen.MsgFor(rng, v)
-				pool = append(pool, gen.Triple{Pub: A.Enc, Msg: msg, Sig: ref.SignWith(a, rr, A.Enc, R.Enc, msg, v)})
-				S := gen.RandBelow(rng, ref.L)
-				if rng.Intn(2) == 0 {
-					S = new(big.Int).Add(gen.P2_252, gen.RandBelow(rng, delta))
-				}
-				Rk := gen.NewKeyPoint(rng, S, rng.Intn(8), -1)
-				msg2 := gen.MsgFor(rng, v)
-				pool = append(pool, gen.Triple{Pub: so[rng.Intn(14)], Msg: msg2, Sig: append(append([]byte(nil), Rk.Enc...), ref.LEBytes(S, 32)...)})
-			}
-			for k := 0; k < bn; k++ {
-				t := pool[rng.Intn(len(pool))].Clone()
-				switch rng.Intn(12) {
-				case 0:
-					t.Sig[rng.Intn(64)] ^= 1 << uint(rng.Intn(8))
-				case 1:
-					if len(t.Msg) > 0 {
-						t.Msg[0] ^= 1
-					}
-				case 2:
-					S := ref.LEInt(t.Sig[32:])
-					S.Add(S, ref.L)
-					if S.Cmp(gen.P2_256) < 0 {
-						copy(t.Sig[32:], ref.LEBytes(S, 32))
-					}
-				}
-				c.Keys = append(c.Keys, hx(t.Pub))
-				c.Msgs = append(c.Msgs, hx(t.Msg))
-				c.Sigs = append(c.Sigs, hx(t.Sig))
-			}
-			emit(c)
-		}
-	}
-	_ = sha512.Size
-	fmt.Println("generated", n, "calls")
 }
